@@ -437,6 +437,29 @@ let run_case op t =
             | `Na -> "na")
       in
       (go_m (default_str cap ck) [ "ok" ] ops, if raw then "na" else go_s [] [ "ok" ] ops)
+  | "copyb" | "copyb2" | "vcopyb" -> (
+      (* copy into a caller's buffer: the destination array (all of its characters) is part of the case; both legs print
+         the returned count and the whole array after the call between the two guard characters of the harness *)
+      let l = next_zlist t in
+      let d = next_zlist t in
+      let cnt = next_z t in
+      let pos = if op = "copyb2" then Z0 else next_z t in
+      let g = z_of_int 90 in
+      let pr (n, d') = join [ zs n; zlist_s ((g :: d') @ [ g ]) ] in
+      match mk_str cap ck l with
+      | Ok s ->
+          let m = if op = "vcopyb" then view_copy_into_m s d cnt pos else copy_into_m s d cnt pos in
+          (* outside std's domain: pos > size() has a DOCUMENTED outcome ("If pos is greater then size(), nothing will be
+             copied", returns 0 - C04_copy_into_past_end; the view member: TETL_PRECONDITION(pos <= size())); a
+             destination shorter than the copy has none *)
+          let past_end = not (zle pos (zlen l)) in
+          let spec =
+            match s_copy_into l d cnt pos with
+            | Some r -> "ok " ^ pr r
+            | None -> if not past_end then "na" else if op = "vcopyb" then "contract" else "ok " ^ pr (Z0, d)
+          in
+          (res_s pr m, spec)
+      | _ -> ("contract", "na"))
   | "replacei" | "replaceip" | "replaceiz" | "replacef" -> (
       let l = next_zlist t in
       let first = next_z t in
@@ -628,7 +651,7 @@ let run_case op t =
               else cmp (CmpPos5View (p1, n1, view_of_list b, p2, npos_z))
           | "copy2" ->
               let cnt = next_z t in
-              let r, cl = copy_m s cnt Z0 in
+              let r, cl = istr_copy_m s cnt Z0 in
               let spec =
                 match s_substr l Z0 cnt with
                 | Some x -> join [ "ok"; string_of_int (List.length x); zlist_s x ]
@@ -800,7 +823,7 @@ let run_case op t =
           | "copy" ->
               let cnt = next_z t in
               let pos = next_z t in
-              let r, cl = copy_m s cnt pos in
+              let r, cl = istr_copy_m s cnt pos in
               let spec =
                 match s_substr l pos cnt with
                 | Some x -> join [ "ok"; string_of_int (List.length x); zlist_s x ]
